@@ -16,7 +16,7 @@ EXPLANATION = (
     "history line was copied into the buffer; the splitter slices at find(';') offsets. R5 (DOM): Up/Down step history.index only under "
     "a guard on it (or clamp it), and reset the cursor only under such a guard - a history key that does not change the focused entry leaves "
     "the cursor alone, as a plain editor does."
-    ' R1 also checks byte-index sinks (String::insert/remove/...: the position must be a boundary-safe byte offset). R4 also: update_next returns only with the draft focused (copy and focus reset on every path). R8: clearing the edit buffer is followed by cursor := 0 on every path to the return. R2 also: the count a step is guarded by is that of the line on show - get_current(), or the buffer once update_next dominates -, not of the hidden draft. R9: no function of the editor narrows a `char` to u8/u16 (`ch as u8`) outside an is_ascii test of that character.'
+    ' R1 also checks byte-index sinks (String::insert/remove/...: the position must be a boundary-safe byte offset). R4 also: update_next returns only with the draft focused (copy and focus reset on every path). R8: clearing the edit buffer is followed by cursor := 0 on every path to the return. R2 also: the count a step is guarded by is that of the line on show - get_current(), or the buffer once update_next dominates -, not of the hidden draft. R9: no function of the editor narrows a `char` to u8/u16 (`ch as u8`) outside an is_ascii test of that character. R10: no blank line is submitted - from the blank side of the draft test no `complete` answer is reachable, and the history list is only pushed to by TerminalHistory::push (from read_line, behind the raw read, with the buffer) and by the history-file loader behind a `trim().is_empty()` test.'
 )
 NOT_DECIDED = "equality with a reference editor for all key sequences; that helper results are <= the character count (value-level)"
 
@@ -379,4 +379,65 @@ def run(ctx):
                     ctx.violation("char-narrowed|%s|%s" % (short(n), r.get("ty")), sp_file_line(s.get("sp")),
                                   "`%s` narrows a typed character to %s (`%s as %s`) without an is_ascii test: only the low bits of the code point survive, so a "
                                   "multi-byte character is taken for an unrelated ASCII one" % (short(n), r.get("ty"), expr_str(src, 40), r.get("ty")))
+    ctx.finish_rule()
+
+    # ------------------------------------------------------------------ R10
+    # a finished read never hands on a blank line (read_line asserts it): the key handler answers "complete" only for a line that is not
+    # blank - a draft is tested on the spot, a focused history entry is non-blank because nothing blank ever enters the history list:
+    # (a) from the blank side of the draft test no "complete" answer is reachable; (b) the list is only pushed to by TerminalHistory::push,
+    # called from read_line behind the raw read with the buffer itself, and by the loader of the history file, which must skip blank lines
+    ctx.rule("C20.R10", "no blank line is ever submitted: blank drafts are refused, blank lines never enter the history", floor=3)
+    blank_tests = []
+    for bb_, t_, c_ in hk.calls():
+        if c_ and c_.endswith("str>::is_empty") and t_.get("t") is not None:
+            e_ = expr_str(hk.expr(t_["args"][0], 8), 200)
+            if "trim" in e_ and any(bf in e_ for bf in bufs):
+                sw_ = hk.term(t_["t"])
+                if sw_["k"] == "switch":
+                    tg_ = {v: x for v, x in sw_["targets"]}
+                    blank_tests.append((bb_, sw_["otherwise"] if 0 in tg_ else tg_.get(1)))
+    ctx.instance(1)
+    ok = bool(blank_tests) and all(bt is not None and not (set(trues) & hk.reachable(bt)) for bb_, bt in blank_tests)
+    ctx.oblig(ok, {"blank draft": "no `complete` answer behind the blank side of the test", "tests": len(blank_tests)}, "reachability")
+    if not ok:
+        ctx.violation("blank-draft-submitted", hk.file_line(), "the key handler can answer `line complete` for a draft that is blank (no test of `buffer.trim().is_empty()` "
+                      "keeps Enter from submitting it): read_line's assertion fails and an empty command is executed")
+    HIST = T + "TerminalHistory::"
+    pushers = []
+    for n, f in sorted(prog.fns.items()):
+        if not n.startswith(T) or f.bkind != "fn":
+            continue
+        for bb_, t_, c_ in f.calls():
+            if c_ and c_.endswith("Vec::<T, A>::push") and "Vec<alloc::string::String>" in (t_.get("arg_tys") or [""])[0]:
+                pushers.append((n, f, bb_, t_))
+    ctx.need(len(pushers) >= 2, "pushes into a list of history lines (found %d)" % len(pushers))
+    for n, f, bb_, t_ in pushers:
+        ctx.instance(1)
+        val = kit.strip_refs(f.expr(t_["args"][1], 6, stop={"named"}))
+        why = None
+        if val[0] == "arg":
+            # the line comes from the caller: only read_line may call, behind the raw read, with the edit buffer itself
+            for cn in sorted(ctx.cg.callers(n)):
+                g = prog.fns.get(cn)
+                if g is None:
+                    continue
+                for b2, t2, c2 in g.calls():
+                    if c2 != n:
+                        continue
+                    a_ = expr_str(g.expr(t2["args"][val[1] - 1], 8), 200)
+                    raw = [b3 for b3, t3, c3 in g.calls() if c3 == T + "Terminal::read_line_raw" and g.dominates(b3, b2)]
+                    if not (any(bf in a_ for bf in bufs) and raw):
+                        why = "`%s` pushes `%s` into the history without it being the buffer a finished raw read left behind" % (short(cn), a_[:60])
+        else:
+            # a line read from somewhere else (the history file): it must have been tested for blankness
+            cons = L0._dom_constraints(f, bb_, stable=False)
+            okc = any(v == 0 and c[0] == "call" and str(c[1]).endswith("str>::is_empty") and "trim" in expr_str(c, 200) for c, v in cons) or \
+                  any(v != 0 and c[0] == "un" and c[1] == "Not" and "is_empty" in expr_str(c, 200) and "trim" in expr_str(c, 200) for c, v in cons)
+            if not okc:
+                why = "`%s` stores a line in the history list without testing that it is not blank" % short(n)
+        ctx.oblig(why is None, {"history push in": short(n), "at": sp_file_line(t_.get("sp"))}, "buffer of a finished read, or tested non-blank")
+        if why:
+            ctx.violation("blank-history-line|%s" % short(n), sp_file_line(t_.get("sp")),
+                          "%s: with a blank line in the history (an edited or damaged history file), Up then Enter submits it - read_line's `should have read "
+                          "characters until non-empty` assertion panics in a debug build and an empty command is run otherwise" % why)
     ctx.finish_rule()
